@@ -13,6 +13,8 @@ from .exprgen import T_INT, T_DEC, T_STR, T_DATE, T_BOOL, PY
 
 D = decimal.Decimal
 ASSUMPTIONS = [
+    'dates stay within Python\'s range: a statement on which date / timedelta arithmetic raises OverflowError (nested and materialised alike) '
+    'is counted (histogram key date_overflow_counted_not_compared), not compared with the model, whose dates are unbounded',
     'inner targets are aliased with distinct names (duplicate output names in a subquery collapse to one column: recorded finding)',
     'the harness types the inner result columns itself from its generator',
     'translator tie (C08_source_*): coq/Gen/SrcSubquery.v is regenerated from the source of SubqueryTable.__init__ / '
@@ -831,6 +833,10 @@ def run(tier, rng):
         bad = None
         if io['nested'] != io['mat']:
             bad = f'nested {io["nested"]} differs from the outer query over the materialised inner result {io["mat"]}'
+        elif io['nested'][:2] == ['exception', 'other:OverflowError']:
+            # datetime.date / timedelta arithmetic leaving Python's range raises (nested and materialised alike, compared above);
+            # the model's dates are unbounded (ASSUMPTIONS): counted, not compared with the model
+            hist['date_overflow_counted_not_compared'] = hist.get('date_overflow_counted_not_compared', 0) + 1
         elif io['nested'] != m:
             bad = f'implementation {io["nested"]} differs from model {m}'
         elif io['nested'][0] == 0 and c['star'] and io.get('desc') != io.get('mat_desc'):
